@@ -15,6 +15,12 @@ The flux and mid-step buffers handed to the time-step kernels are pre-loaded wit
 NaNs in one execution, large random numbers in a second one): the result must be finite and bitwise
 the same (``*-depends-on-buffer-garbage``).
 
+Workload diversity (added after the seeded-change campaign): per shape ONE scratch flux array object serves all ten
+executions (refilled with payload NaNs / large numbers, ring included, before each call), so the 2nd, 3rd, ... call on an
+already-seen array object is exercised; the step prefactor is real_t in the first and a python float of the same value in
+the second execution of each pair (bitwise agreement demanded); two SSP-RK3 shapes per shard get a SIBLING kernel object
+(same shape and precision, its own mid-step buffer) followed by the first kernel object again.
+
 Noise floors (measured headroom >= 10x, see ``max err/tol`` in the evidence):
   Euler, same prefactor            8 eps (|f|max + |flux|max)               one rounding of the sum
   advection through inv_dx = 1     16 eps (|f|max + |dt/dx| 2d (4/3) max|f u|)   face-flux magnitudes
@@ -73,6 +79,13 @@ REQUIRE = {
     "vector_variant_cases": 20,
     "garbage_buffer_pairs_bitwise": 100,
     "cells_compared": 50000,
+    "calls_on_reused_scratch_object": 400,
+    "scalar_args_python_float": 200,
+    "scalar_args_real_t": 200,
+    "shapes_first_axis_longer_than_x": 10,
+    "shapes_x_longest_or_equal": 10,
+    "ssprk3_cases_sibling_kernel_same_shape": 4,
+    "ssprk3_cases_first_kernel_after_sibling": 4,
 }
 FAMILIES = ("adv2d", "adv3d", "diff2d", "diff3d", "vs-euler", "vs-rk3", "vs-rk3")
 F5_KEY = "ssprk3==I+2A/3+A^2/3+A^3/12"
@@ -123,6 +136,15 @@ class _Ctx:
         self.rng = util.rng_for(sh["seed"], ID, sh["family"], sh["dtype"], sh["idx"])
         self.tier = sh["tier"]
 
+    def scalar(self, x, g):
+        """step prefactor: real_t in the first execution, the same value as a python float in the second (the two
+        executions must agree bitwise)"""
+        self.rec.count("scalar_args_python_float" if g else "scalar_args_real_t")
+        return float(x) if g else x
+
+    def note_shape(self, shape):
+        self.rec.count("shapes_first_axis_longer_than_x" if shape[0] > shape[-1] else "shapes_x_longest_or_equal")
+
     def twice(self, call, make_args, what, meta):
         """run the time-step kernel twice from the same input with different buffer garbage"""
         outs = []
@@ -138,6 +160,7 @@ class _Ctx:
             self.rec.violation(f"{what}-depends-on-buffer-garbage", f"result not finite or differs between two garbage pre-loads of the work buffers {meta}", {"meta": meta})
             return None
         self.rec.count("garbage_buffer_pairs_bitwise")
+        self.rec.count("calls_on_reused_scratch_object", 2)
         return outs[0]
 
 
@@ -168,6 +191,8 @@ def _run_diffusion(ctx, d):
     for variant, step in steps.items():
         for k in range(nshape):
             shape = _shape(rng, d, k, ctx.tier)
+            ctx.note_shape(shape)
+            scratch = np.empty(shape, real_t)  # ONE flux array object per shape, refilled with garbage before every call
             for fk in FIELD_KINDS:
                 full = shape if variant == "scalar" else (d, *shape)
                 f0 = util.field(rng, full, fk, real_t)
@@ -176,7 +201,8 @@ def _run_diffusion(ctx, d):
                 meta = {"family": f"diffusion{d}d", "variant": variant, "dtype": ctx.sh["dtype"], "shape": shape, "field": fk, "prefactor": float(pref)}
 
                 def args(g):
-                    kw = {"diffusion_flux": _garbage(rng, shape, real_t, g), "nu_dt_by_dx2": pref}
+                    scratch[...] = _garbage(rng, shape, real_t, g)
+                    kw = {"diffusion_flux": scratch, "nu_dt_by_dx2": ctx.scalar(pref, g)}
                     return f0.copy(), kw
 
                 got = ctx.twice((lambda f, **kw: step(field=f, **kw)) if variant == "scalar" else (lambda f, **kw: step(vector_field=f, **kw)), args, "diffusion-euler", meta)
@@ -212,6 +238,8 @@ def _run_advection(ctx, d):
     for variant, step in steps.items():
         for k in range(nshape):
             shape = _shape(rng, d, k, ctx.tier)
+            ctx.note_shape(shape)
+            scratch = np.empty(shape, real_t)  # ONE flux array object per shape, refilled with garbage before every call
             for fk in FIELD_KINDS:
                 vk = VEL_KINDS[int(rng.integers(len(VEL_KINDS)))]
                 amp = 10.0 ** rng.uniform(-2, 2)
@@ -224,7 +252,8 @@ def _run_advection(ctx, d):
                 v0 = vel.copy()
 
                 def args(g):
-                    kw = {"advection_flux": _garbage(rng, shape, real_t, g), "velocity": vel, "dt_by_dx": dtdx}
+                    scratch[...] = _garbage(rng, shape, real_t, g)
+                    kw = {"advection_flux": scratch, "velocity": vel, "dt_by_dx": ctx.scalar(dtdx, g)}
                     return f0.copy(), kw
 
                 got = ctx.twice((lambda f, **kw: step(field=f, **kw)) if variant == "scalar" else (lambda f, **kw: step(vector_field=f, **kw)), args, "advection-euler", meta)
@@ -291,70 +320,85 @@ def _run_stretching(ctx, scheme):
     euler = spne.gen_vorticity_stretching_timestep_euler_forward_pyst_kernel_3d(real_t=real_t, num_threads=2) if scheme == "euler" else None
     nshape = (6 if scheme == "euler" else 8) if ctx.tier == "quick" else 14
 
+    def one_case(shape, kern, mid, scratch, fk, role):
+        vk, amp, vel, w0, h, b = _stretch_case(ctx, shape, fk)
+        meta = {"family": f"stretching-{scheme}", "dtype": ctx.sh["dtype"], "shape": shape, "field": fk, "velocity": vk, "vel_amp": amp,
+                "dt_by_2_dx": float(h), "norm_A_bound": b, "object": role}
+        v0 = vel.copy()
+
+        def A(x):
+            out = np.zeros((3, *shape), real_t)
+            flux(vorticity_stretching_flux_field=out, vorticity_field=np.ascontiguousarray(x), velocity_field=vel, prefactor=h)
+            return out
+
+        def args(g):
+            if scheme == "rk3":
+                mid[...] = _garbage(rng, mid.shape, real_t, g)
+            scratch[...] = _garbage(rng, (3, *shape), real_t, g)
+            kw = {"velocity_field": vel, "vorticity_stretching_flux_field": scratch, "dt_by_2_dx": ctx.scalar(h, g)}
+            return w0.copy(), kw
+
+        got = ctx.twice(lambda f, **kw: kern(vorticity_field=f, **kw), args, f"stretching-{scheme}", meta)
+        if got is None:
+            rec.case(None)
+            return
+        rec.check(util.bits_equal(vel, v0), f"stretching-{scheme}-modified-velocity", f"{meta}", {"meta": meta})
+        w64 = w0.astype(np.float64)
+        wmax = util.maxabs(w64)
+        a1 = A(w0)
+        cls = (f"vs-{scheme}", ctx.sh["dtype"], fk, vk, int(np.floor(np.log10(b))) if b > 0 else None, role)
+        if scheme == "euler":
+            tol = 8 * eps * (wmax + util.maxabs(a1)) + 1e-300
+            _cmp(ctx, got, w64 + a1.astype(np.float64), tol, "euler_stretching", "stretching-euler!=field+flux", f"vortex-stretching Euler step {meta}", {"meta": meta, "w": w0, "vel": vel})
+            rec.count("euler_stretching_cases")
+            rec.case(cls if util.maxabs(a1) > 0 else None, sample=meta)
+            return
+        a2 = A(a1)
+        a3 = A(a2)
+        a1, a2, a3 = (x.astype(np.float64) for x in (a1, a2, a3))
+        tol = 32 * eps * wmax * (1 + b + b * b + b**3) + 1e-300
+        nominal = w64 + a1 + a2 / 2 + a3 / 6
+        r_nom = util.err_over_tol(got, nominal, tol)
+        rec.count("ssprk3_cases")
+        if role != "primary":
+            rec.count(f"ssprk3_cases_{role}")
+        rec.count("cells_compared", int(nominal.size))
+        if util.maxabs(a3) / 12 > tol:
+            rec.count("ssprk3_cases_where_A3_term_above_floor")
+        f5 = w64 + 2 * a1 / 3 + a2 / 3 + a3 / 12
+        if util.err_over_tol(f5, nominal, tol) > 1:
+            rec.count("ssprk3_cases_where_F5_polynomial_distinguishable")
+        rec.case(cls if util.maxabs(a1) > 0 else None, sample={**meta, "err_over_tol_vs_nominal": r_nom})
+        if r_nom <= 1:
+            rec.stat("ssprk3_vs_nominal", r_nom)
+            rec.stat(f"ssprk3_vs_nominal_{ctx.sh['dtype']}", r_nom)
+            return
+        # classification of the deviation (known open finding F5 vs anything else)
+        r_f5 = util.err_over_tol(got, f5, tol)
+        w = {"meta": meta, "w": w0, "vel": vel}
+        if r_f5 <= 1:
+            rec.stat("ssprk3_vs_F5_polynomial", r_f5)
+            rec.count("ssprk3_cases_matching_F5_polynomial")
+            rec.violation(F5_KEY, f"SSP-RK3 output = (I + 2A/3 + A^2/3 + A^3/12) w to {r_f5:.3g} x floor, but {r_nom:.3g} x floor away from (I + A + A^2/2 + A^3/6) w {meta}", w)
+        else:
+            rec.violation("ssprk3!=nominal", f"SSP-RK3 output is {r_nom:.3g} x floor away from (I + A + A^2/2 + A^3/6) w (and {r_f5:.3g} x floor from the F5 polynomial) {meta}", w)
+
     for k in range(nshape):
         shape = _stretch_setup(ctx, k)
+        ctx.note_shape(shape)
         mid = np.zeros((3, *shape), real_t)
+        scratch = np.empty((3, *shape), real_t)  # ONE flux array object per shape, refilled with garbage before every call
         rk3 = spne.gen_vorticity_stretching_timestep_ssprk3_pyst_kernel_3d(real_t=real_t, midstep_buffer_vector_field=mid, num_threads=2) if scheme == "rk3" else None
+        kern = euler if scheme == "euler" else rk3
         for fk in FIELD_KINDS:
-            vk, amp, vel, w0, h, b = _stretch_case(ctx, shape, fk)
-            meta = {"family": f"stretching-{scheme}", "dtype": ctx.sh["dtype"], "shape": shape, "field": fk, "velocity": vk, "vel_amp": amp,
-                    "dt_by_2_dx": float(h), "norm_A_bound": b}
-            v0 = vel.copy()
-
-            def A(x):
-                out = np.zeros((3, *shape), real_t)
-                flux(vorticity_stretching_flux_field=out, vorticity_field=np.ascontiguousarray(x), velocity_field=vel, prefactor=h)
-                return out
-
-            def args(g):
-                if scheme == "rk3":
-                    mid[...] = _garbage(rng, mid.shape, real_t, g)
-                kw = {"velocity_field": vel, "vorticity_stretching_flux_field": _garbage(rng, (3, *shape), real_t, g), "dt_by_2_dx": h}
-                return w0.copy(), kw
-
-            kern = euler if scheme == "euler" else rk3
-            got = ctx.twice(lambda f, **kw: kern(vorticity_field=f, **kw), args, f"stretching-{scheme}", meta)
-            if got is None:
-                rec.case(None)
-                continue
-            rec.check(util.bits_equal(vel, v0), f"stretching-{scheme}-modified-velocity", f"{meta}", {"meta": meta})
-            w64 = w0.astype(np.float64)
-            wmax = util.maxabs(w64)
-            a1 = A(w0)
-            cls = (f"vs-{scheme}", ctx.sh["dtype"], fk, vk, int(np.floor(np.log10(b))) if b > 0 else None)
-            if scheme == "euler":
-                tol = 8 * eps * (wmax + util.maxabs(a1)) + 1e-300
-                _cmp(ctx, got, w64 + a1.astype(np.float64), tol, "euler_stretching", "stretching-euler!=field+flux", f"vortex-stretching Euler step {meta}", {"meta": meta, "w": w0, "vel": vel})
-                rec.count("euler_stretching_cases")
-                rec.case(cls if util.maxabs(a1) > 0 else None, sample=meta)
-                continue
-            a2 = A(a1)
-            a3 = A(a2)
-            a1, a2, a3 = (x.astype(np.float64) for x in (a1, a2, a3))
-            tol = 32 * eps * wmax * (1 + b + b * b + b**3) + 1e-300
-            nominal = w64 + a1 + a2 / 2 + a3 / 6
-            r_nom = util.err_over_tol(got, nominal, tol)
-            rec.count("ssprk3_cases")
-            rec.count("cells_compared", int(nominal.size))
-            if util.maxabs(a3) / 12 > tol:
-                rec.count("ssprk3_cases_where_A3_term_above_floor")
-            f5 = w64 + 2 * a1 / 3 + a2 / 3 + a3 / 12
-            if util.err_over_tol(f5, nominal, tol) > 1:
-                rec.count("ssprk3_cases_where_F5_polynomial_distinguishable")
-            rec.case(cls if util.maxabs(a1) > 0 else None, sample={**meta, "err_over_tol_vs_nominal": r_nom})
-            if r_nom <= 1:
-                rec.stat("ssprk3_vs_nominal", r_nom)
-                rec.stat(f"ssprk3_vs_nominal_{ctx.sh['dtype']}", r_nom)
-                continue
-            # classification of the deviation (known open finding F5 vs anything else)
-            r_f5 = util.err_over_tol(got, f5, tol)
-            w = {"meta": meta, "w": w0, "vel": vel}
-            if r_f5 <= 1:
-                rec.stat("ssprk3_vs_F5_polynomial", r_f5)
-                rec.count("ssprk3_cases_matching_F5_polynomial")
-                rec.violation(F5_KEY, f"SSP-RK3 output = (I + 2A/3 + A^2/3 + A^3/12) w to {r_f5:.3g} x floor, but {r_nom:.3g} x floor away from (I + A + A^2/2 + A^3/6) w {meta}", w)
-            else:
-                rec.violation("ssprk3!=nominal", f"SSP-RK3 output is {r_nom:.3g} x floor away from (I + A + A^2/2 + A^3/6) w (and {r_f5:.3g} x floor from the F5 polynomial) {meta}", w)
+            one_case(shape, kern, mid, scratch, fk, "primary")
+        if scheme == "rk3" and k in (2, 5):
+            # sibling kernel object: SAME grid shape and precision, its OWN mid-step buffer, generated later in the same process;
+            # then the FIRST kernel object (and its buffer) once more
+            mid_b = np.zeros((3, *shape), real_t)
+            rk3_b = spne.gen_vorticity_stretching_timestep_ssprk3_pyst_kernel_3d(real_t=real_t, midstep_buffer_vector_field=mid_b, num_threads=2)
+            one_case(shape, rk3_b, mid_b, scratch, FIELD_KINDS[k % len(FIELD_KINDS)], "sibling_kernel_same_shape")
+            one_case(shape, rk3, mid, scratch, FIELD_KINDS[(k + 1) % len(FIELD_KINDS)], "first_kernel_after_sibling")
 
 
 def run_shard(sh, rec):
